@@ -19,7 +19,12 @@ for m in mods:
             print("translate %s: %r" % (m, ex))
 with vlib.Lock():
     vlib.ensure_makefile()
-    rc, out = vlib.sh("timeout 3400 make -k -j16", cwd=vlib.COQ, timeout=3500)
+    # everything except the long kernel-computation re-checks that no Props file depends on (the thorough tier of
+    # C08 / C11 builds them on demand): NotAdjBounded20 (~7 min single-threaded), YinyangBounded (~2 min)
+    heavy = ("theories/Graph/NotAdjBounded20.v", "theories/Puzzle/YinyangBounded.v")
+    targets = [f[:-2] + ".vo" for f in vlib.all_v_files() if f not in heavy]
+    open(os.path.join(vlib.COQ, ".setup_targets"), "w").write("\n".join(targets) + "\n")
+    rc, out = vlib.sh("timeout 3400 xargs make -k -j16 < .setup_targets", cwd=vlib.COQ, timeout=3500)
 print(out[-3000:])
 print("coq build rc=%d (%.0fs)" % (rc, time.time() - t0))
 for d in sorted(os.listdir(vlib.EXTRACT)):
